@@ -408,7 +408,7 @@ func realFullStart(d *memory.Database, spec fullSpec, sp fullStart) fullOutcome 
 		out.hang = true
 		return out
 	}
-	finished := lib.WithDeadline(30*time.Second, func() {
+	finished := store.runWatched(8*time.Second, 180*time.Second, func() {
 		e, _, _ := lib.Try(func() error { return runner.Run(ctx) })
 		runErr = e
 	})
@@ -579,8 +579,9 @@ func (h *harness) fullHistoryCase(hist fullHistory, family string) {
 		btImgs = append(btImgs, o.btImgs...)
 		cur = o.after
 		if o.failedWrites > 0 && !o.crashed && o.result == "ok" {
-			res.Violate(lib.Violation{Sig: "upgrade-swallows-failed-write", What: fmt.Sprintf("start %d: %d writes failed and Run returned nil", si, o.failedWrites), Replay: hist})
-			return
+			// a failed write was absorbed (retried by the migration's own loop): acceptable iff
+			// nothing is missing — the content checks below decide
+			res.Hit("full-start:write-failure-absorbed")
 		}
 		if o.failedWrites > 0 {
 			res.Hit("full-start:write-failed")
@@ -784,7 +785,7 @@ func (h *harness) prunerRestoreCrash(fs fullSpec, family string) {
 		return
 	}
 	var runErr error
-	if !lib.WithDeadline(30*time.Second, func() { runErr = runner.Run(context.Background()) }) {
+	if !store.runWatched(8*time.Second, 180*time.Second, func() { runErr = runner.Run(context.Background()) }) {
 		hungOnce.Store(true)
 		return
 	}
